@@ -49,18 +49,22 @@ class Run:
         self.V = []
         self.ncalls = 0
         self.final = None
+        C.install_fault(sim, case.get('fault'))
 
     def viol(self, clause, man, detail=None):
         self.V.append({'clause': clause, 'manifestation': man, 'detail': detail})
 
     def truly_alive(self, rec):
         w, kind = rec['w'], rec['kind']
-        if not w._started:
+        d = w.__dict__
+        if '_started' not in d or (lib.base_kind(kind) != 'remote' and d['_started'] and '_child' not in d):
+            return False        # being re-initialised by restart(): no claim (the epoch logic skips it anyway)
+        if not d['_started']:
             return False
         if lib.base_kind(kind) == 'thread':
-            st = w._child._st
+            st = d['_child']._st
             return st is not None and st.state in ('runnable', 'blocked', 'new')
-        p = self.sim.procs.get(w.pid)
+        p = self.sim.procs.get(d.get('_pid'))
         if p is None or p is self.sim.root_proc:
             return False
         return p.alive
@@ -170,6 +174,8 @@ class Run:
                         self.viol('restart', f'restart-hung:{rec["kind"]}:blocked@{fr}', s.blocked_report()[:8])
             elif name == 'active':
                 self.do_active()
+            elif name == 'sleep':
+                s.sleep(op[1])
 
     def root(self):
         from pyworkers.worker import Worker, autoclose_active_children
